@@ -326,8 +326,17 @@ def _gen_body(rng, depth=0):
     return body
 
 
+RICH = ["Head one\nhead *two* `c`\n===\n", "Sub\nsub [l](/u)\n---\n", "| a | *b* |\n|---|:-:|\n| `c` | ![i](/x) |\n",
+        "> quote *e*\n> more  \n> hard\n", "1. one\n   two *e*\n2. [r]\n\n[r]: /ref 'T'\n", "![a *b* ![c](/i)](/img \"t\")\n",
+        "a \"q\" -- ... 'x'\nb\n", "<span>*h*</span> &amp; \\* <http://a.b>\n", "```py info\ncode\n```\n", "# ATX *e*\n"]
+
+
 def gen(rng: random.Random, tier: str) -> dict:
     cfg = docgen.config(rng) if rng.random() < 0.7 else dict(BASE_CFG)
+    if rng.random() < 0.2:
+        # every render-affecting option away from its default at once: code that flips an option around part of the work
+        # is invisible while the option has the value it is flipped to
+        cfg = {**cfg, "options": {**cfg["options"], "breaks": True, "xhtmlOut": True, "typographer": True, "html": True}}
     rec = {"cfg": cfg, "plugins": _gen_plugins(rng),
            "extra_render": rng.sample(EXTRA_RENDER, rng.choice([0, 2, 5])),
            "highlight": rng.choice([None, 0, 0, 1, 2]),
@@ -337,6 +346,8 @@ def gen(rng: random.Random, tier: str) -> dict:
         rec["kind"] = "sweep"
         rec["method"] = rng.choice(METHODS)
         rec["doc"] = docgen.inline_source(rng) if "Inline" in rec["method"] else docgen.document(rng, 2)
+        if "Inline" not in rec["method"] and rng.random() < 0.5:
+            rec["doc"] += "\n" + "\n".join(rng.sample(RICH, rng.randint(1, 3)))
         rec["cap"] = 100 if tier == "quick" else 400
         rec["exc_rot"] = rng.randrange(len(EXC_NAMES))
         return rec
@@ -347,6 +358,8 @@ def gen(rng: random.Random, tier: str) -> dict:
         if r < 0.45:
             m = rng.choice(METHODS)
             d = docgen.inline_source(rng) if "Inline" in m else docgen.document(rng, 3)
+            if "Inline" not in m and rng.random() < 0.3:
+                d += "\n" + "\n".join(rng.sample(RICH, rng.randint(1, 2)))
             if rec["highlight"] is not None and "Inline" not in m and rng.random() < 0.5:
                 d += rng.choice(["```py info\ncode\n```\n", "> ~~~ js\n> x\n> ~~~\n", "- ```\n  y\n  ```\n"])
                 m = "render" if rng.random() < 0.8 else m
